@@ -3,6 +3,7 @@ package eval
 import (
 	"bytes"
 	"math"
+	"slices"
 	"strings"
 
 	"fortio.org/log"
@@ -80,6 +81,10 @@ func (s *State) evalIndexAssigment(which ast.Node, index, value object.Object) o
 			return s.NewError("index assignment out of bounds: " + index.Inspect())
 		}
 		elements := object.Elements(val)
+		if len(elements) > object.MaxSmallArray {
+			// A large array shares its element slice with every copy of the value: write into a private copy.
+			elements = slices.Clone(elements)
+		}
 		elements[idx] = value
 		oerr := s.env.Set(id.Literal(), object.NewArray(elements))
 		if oerr.Type() == object.ERROR {
